@@ -39,6 +39,7 @@ type GenOpts struct {
 	FixedConfig    bool
 	Overhead       bool // some pods carry spec.overhead (RuntimeClass)
 	DRA            bool // some worlds have DRA devices and resource claims
+	SchedCrash     bool // the scheduler process may crash in the middle of a cycle and restart
 }
 
 func pick[T any](t *rapid.T, label string, xs ...T) T {
@@ -481,7 +482,11 @@ func genOps(t *rapid.T, o GenOpts, w *World) []Op {
 	}
 	var ops []Op
 	for c := 0; c < cycles; c++ {
-		ops = append(ops, Op{Kind: "cycle"})
+		cy := Op{Kind: "cycle"}
+		if o.SchedCrash && chance(t, "schedcrash", 4) { // the scheduler process dies after its k-th mutating API call of the cycle
+			cy.Arg = fmt.Sprintf("crash:%d", rapid.IntRange(1, 6).Draw(t, "crashat"))
+		}
+		ops = append(ops, cy)
 		if chance(t, "binder", 85) {
 			ops = append(ops, Op{Kind: "binder"})
 		}
